@@ -89,69 +89,84 @@ theorem mar_null (o : MOpts) : ∀ (T : GoType) (v : GoVal) (j : JTree), mar o T
 
 /-! ### `any` -/
 
-/-- Round trip of the dynamic value held by an interface. -/
+/-- Round trip of the dynamic value held by an interface (when it does not marshal as `null`). -/
 def RTDyn (o : MOpts) (dv : GoVal) : Prop :=
-  ∀ j, dynTyped dv = true → safe o dv = true → printsNull o dv = false → marDyn o dv = .ok j →
-    ∃ dv', unmAny j .nilIface = .ok (.ifaceOf dv') ∧ veq dv dv' ∧ marDyn o dv' = .ok j ∧ dynTyped dv' = true
+  ∀ j, dynTyped dv = true → marDyn o dv = .ok j → j.isNull = false →
+    ∃ dv', unmAny j .nilIface = .ok (.ifaceOf dv') ∧ (safe o dv = true → veq dv dv') ∧ marDyn o dv' = .ok j ∧
+      dynTyped dv' = true
 
 theorem rt_any_both (o : MOpts) : ∀ v : GoVal, RT1 o (marAny o) unmAny .nilIface anyTyped v ∧ RTDyn o v := by
   intro v
   induction v using GoVal.induct with
   | hnilIface =>
     refine ⟨?_, ?_⟩
-    · intro j _ _ h
+    · intro j _ h
       simp only [marAny, Except.ok.injEq] at h
       subst h
-      exact ⟨.nilIface, by simp [unmAny], by simp [veq], rfl, rfl⟩
+      exact ⟨.nilIface, by simp [unmAny], (by intro _; simp [veq]), rfl, rfl⟩
     · intro j ht; simp [dynTyped] at ht
   | hiface dv ih =>
     refine ⟨?_, ?_⟩
-    · intro j ht hs h
+    · intro j ht h
       simp only [anyTyped] at ht
-      simp only [safe, Bool.and_eq_true, Bool.not_eq_eq_eq_not, Bool.not_true] at hs
       simp only [marAny] at h
-      obtain ⟨dv', h1, h2, h3, h4⟩ := ih.2 j ht hs.2 hs.1 h
-      exact ⟨.ifaceOf dv', h1, by simpa [veq] using h2, by simpa [marAny] using h3, by simpa [anyTyped] using h4⟩
+      cases hn : j.isNull with
+      | true =>
+        have hj : j = .null := by cases j <;> simp_all [JTree.isNull]
+        subst hj
+        refine ⟨.nilIface, by simp [unmAny], ?_, rfl, rfl⟩
+        intro hs
+        simp only [safe, Bool.and_eq_true, Bool.not_eq_eq_eq_not, Bool.not_true] at hs
+        rw [marDyn_null o dv .null h rfl] at hs
+        exact absurd hs.1 (by decide)
+      | false =>
+        obtain ⟨dv', h1, h2, h3, h4⟩ := ih.2 j ht h hn
+        refine ⟨.ifaceOf dv', h1, ?_, by simpa [marAny] using h3, by simpa [anyTyped] using h4⟩
+        intro hs
+        simp only [safe, Bool.and_eq_true] at hs
+        simpa [veq] using h2 hs.2
     · intro j ht; simp [dynTyped] at ht
   | hbool b =>
     refine ⟨by intro j ht; simp [anyTyped] at ht, ?_⟩
-    intro j _ _ _ h
+    intro j _ h _
     simp only [marDyn, Except.ok.injEq] at h
     subst h
-    exact ⟨.bool b, by simp [unmAny, anyPrior], by simp [veq], rfl, rfl⟩
+    exact ⟨.bool b, by simp [unmAny, anyPrior], (by intro _; simp [veq]), rfl, rfl⟩
   | hfloat l =>
     refine ⟨by intro j ht; simp [anyTyped] at ht, ?_⟩
-    intro j _ _ _ h
+    intro j _ h _
     simp only [marDyn, Except.ok.injEq] at h
     subst h
-    exact ⟨.float l, by simp [unmAny, anyPrior], by simp [veq], rfl, rfl⟩
+    exact ⟨.float l, by simp [unmAny, anyPrior], (by intro _; simp [veq]), rfl, rfl⟩
   | hstr s =>
     refine ⟨by intro j ht; simp [anyTyped] at ht, ?_⟩
-    intro j ht _ _ h
+    intro j ht h _
     simp only [dynTyped] at ht
     simp only [marDyn, ht, if_true, Except.ok.injEq] at h
     subst h
-    exact ⟨.str s, by simp [unmAny, anyPrior], by simp [veq], by simp [marDyn, ht], by simp [dynTyped, ht]⟩
+    exact ⟨.str s, by simp [unmAny, anyPrior], (by intro _; simp [veq]), by simp [marDyn, ht], by simp [dynTyped, ht]⟩
   | hnilSlice =>
     refine ⟨by intro j ht; simp [anyTyped] at ht, ?_⟩
-    intro j _ _ hp h
-    simp only [printsNull] at hp
-    simp only [marDyn, nilSliceTree, hp, Bool.false_eq_true, if_false, Except.ok.injEq] at h
+    intro j _ h hn
+    simp only [marDyn, Except.ok.injEq] at h
     subst h
-    exact ⟨.sliceOf [], by simp [unmAny, anyPrior, unmAnyL], by simp [veq], by simp [marDyn, marAnyL], by simp [dynTyped, anyTypedL]⟩
+    rw [nilSliceTree_null] at hn
+    simp only [nilSliceTree, hn, Bool.false_eq_true, if_false]
+    exact ⟨.sliceOf [], by simp [unmAny, anyPrior, unmAnyL], (by intro _; simp [veq]),
+      by simp [marDyn, marAnyL], by simp [dynTyped, anyTypedL]⟩
   | hnilMap =>
     refine ⟨by intro j ht; simp [anyTyped] at ht, ?_⟩
-    intro j _ _ hp h
-    simp only [printsNull] at hp
-    simp only [marDyn, nilMapTree, hp, Bool.false_eq_true, if_false, Except.ok.injEq] at h
+    intro j _ h hn
+    simp only [marDyn, Except.ok.injEq] at h
     subst h
-    refine ⟨.mapOf [], by simp [unmAny, unmAnyM], by simp [veq], ?_, by simp [dynTyped, anyTypedM, nodupB, akeys]⟩
+    rw [nilMapTree_null] at hn
+    simp only [nilMapTree, hn, Bool.false_eq_true, if_false]
+    refine ⟨.mapOf [], by simp [unmAny, unmAnyM], (by intro _; simp [veq]), ?_, by simp [dynTyped, anyTypedM, nodupB, akeys]⟩
     simp [marDyn, marAnyM, sortMembers]
   | hslice vs ih =>
     refine ⟨by intro j ht; simp [anyTyped] at ht, ?_⟩
-    intro j ht hs _ h
+    intro j ht h _
     simp only [dynTyped, anyTypedL_iff] at ht
-    simp only [safe, safeL_iff] at hs
     simp only [marDyn, marAnyL_eq] at h
     cases hl : marList (marAny o) vs with
     | error e => simp [hl] at h
@@ -159,16 +174,16 @@ theorem rt_any_both (o : MOpts) : ∀ v : GoVal, RT1 o (marAny o) unmAny .nilIfa
       simp only [hl, Except.ok.injEq] at h
       subst h
       obtain ⟨ws, h1, h2, h3, h4, _, _⟩ := rt_list (o := o) (mdec := unmAny) (z := .nilIface) (ty := anyTyped) vs
-        (fun v hv => (ih v hv).1) ht hs js hl
-      refine ⟨.sliceOf ws, ?_, by simpa [veq] using h2, ?_, ?_⟩
+        (fun v hv => (ih v hv).1) ht js hl
+      refine ⟨.sliceOf ws, ?_, ?_, ?_, ?_⟩
       · simp [unmAny, anyPrior, unmAnyL_eq, h1]
+      · intro hs; simp only [safe, safeL_iff] at hs; simpa [veq] using h2 hs
       · simp [marDyn, marAnyL_eq, h3]
       · simp only [dynTyped, anyTypedL_iff]; exact h4
   | hmap ms ih =>
     refine ⟨by intro j ht; simp [anyTyped] at ht, ?_⟩
-    intro j ht hs _ h
+    intro j ht h _
     simp only [dynTyped, Bool.and_eq_true, nodupB_iff, anyTypedM_iff] at ht
-    simp only [safe, safeM_iff] at hs
     simp only [marDyn, marAnyM_eq] at h
     cases hl : marMembers (marAny o) ms with
     | error e => simp [hl] at h
@@ -176,9 +191,10 @@ theorem rt_any_both (o : MOpts) : ∀ v : GoVal, RT1 o (marAny o) unmAny .nilIfa
       simp only [hl, Except.ok.injEq] at h
       subst h
       obtain ⟨m', h1, h2, h3, h4, h5⟩ := rt_map (o := o) (mdec := unmAny) (z := .nilIface) (ty := anyTyped) ms
-        (fun k v hv => (ih k v hv).1) ht.1 (fun k v hv => (ht.2 k v hv).2) hs mem hl
-      refine ⟨.mapOf m', ?_, by simpa [veq] using h2, ?_, ?_⟩
+        (fun k v hv => (ih k v hv).1) ht.1 (fun k v hv => (ht.2 k v hv).2) mem hl
+      refine ⟨.mapOf m', ?_, ?_, ?_, ?_⟩
       · simp [unmAny, unmAnyM_eq, h1]
+      · intro hs; simp only [safe, safeM_iff] at hs; simpa [veq] using ⟨h2.1, h2.2 hs⟩
       · simp [marDyn, marAnyM_eq, h3, sortMembers_idem]
       · simp only [dynTyped, Bool.and_eq_true, nodupB_iff, anyTypedM_iff]; exact ⟨h4, h5⟩
   | hint i => exact ⟨by intro j ht; simp [anyTyped] at ht, by intro j ht; simp [dynTyped] at ht⟩
